@@ -299,27 +299,43 @@ func ops() []op {
 		}
 		return err
 	}})
-	out = append(out, op{"bundle-signature(mock) UpdateSignatures+WriteTo", func(o *mon.Rand) any { return buildBundle(o, bver.VersionB2) }, func(in any, w io.Writer) error {
-		src := in.(*bundle.Bundle)
-		s, err := signature.NewSigner(src.Version, idA.Chain, idA.Key, mustURL("https://example.com/validity"), fixedDate, time.Hour)
-		if err != nil {
-			return err
-		}
-		s.Algorithm = &signingalgorithm.MockSigningAlgorithm{}
-		for _, e := range src.Exchanges {
-			if err := s.AddExchange(e, "digest/mi-sha256-03"); err != nil {
+	for _, sver := range []bver.Version{bver.VersionB2, bver.VersionB1} {
+		sver := sver
+		out = append(out, op{"bundle-signature(mock) UpdateSignatures+WriteTo/" + string(sver), func(o *mon.Rand) any {
+			b := buildBundle(o, sver)
+			if sver == bver.VersionB1 {
+				// the bundle signer supports one representation per URL: keep the plain exchanges only
+				var plainEx []*bundle.Exchange
+				for _, e := range b.Exchanges {
+					if _, isVar := e.Response.Header["Variants"]; !isVar {
+						plainEx = append(plainEx, e)
+					}
+				}
+				b.Exchanges = plainEx
+			}
+			return b
+		}, func(in any, w io.Writer) error {
+			src := in.(*bundle.Bundle)
+			s, err := signature.NewSigner(src.Version, idA.Chain, idA.Key, mustURL("https://example.com/validity"), fixedDate, time.Hour)
+			if err != nil {
 				return err
 			}
-		}
-		sigs, err := s.UpdateSignatures(nil)
-		if err != nil {
+			s.Algorithm = &signingalgorithm.MockSigningAlgorithm{}
+			for _, e := range src.Exchanges {
+				if err := s.AddExchange(e, "digest/mi-sha256-03"); err != nil {
+					return err
+				}
+			}
+			sigs, err := s.UpdateSignatures(nil)
+			if err != nil {
+				return err
+			}
+			cp := *src
+			cp.Signatures = sigs
+			_, err = cp.WriteTo(w)
 			return err
-		}
-		cp := *src
-		cp.Signatures = sigs
-		_, err = cp.WriteTo(w)
-		return err
-	}})
+		}})
+	}
 	out = append(out, op{"CertChain.Write", func(o *mon.Rand) any { return idA.Chain }, func(in any, w io.Writer) error { return in.(certurl.CertChain).Write(w) }})
 	for _, n := range []int{2, 70} {
 		n := n
@@ -501,8 +517,21 @@ func run(r *mon.Run) {
 	r.Note("serializer_operations", len(all))
 
 	// baseline: fresh single-goroutine run, canonical insertion order
+	// The baseline is computed in a different order in every shard (rotated, and reversed in odd shards); ./check compares
+	// the baselines of all shards: an output that depends on what the process did before (a cache keyed too coarsely,
+	// "first use wins" state) differs between processes even though each process is self-consistent.
 	base := map[string]string{}
-	for _, o := range all {
+	order := make([]int, len(all))
+	for i := range order {
+		order[i] = (i + r.Shard*7) % len(all)
+	}
+	if r.Shard%2 == 1 {
+		for a, b := 0, len(order)-1; a < b; a, b = a+1, b-1 {
+			order[a], order[b] = order[b], order[a]
+		}
+	}
+	for _, oi := range order {
+		o := all[oi]
 		in := o.build(mon.NewRand(0, "order-baseline", 0))
 		ev := record(0, o, "baseline", "baseline", in, &yieldingWriter{})
 		// an operation may consistently refuse its input (e.g. two header names equal after case folding): then every
@@ -511,6 +540,7 @@ func run(r *mon.Run) {
 		if ev.Err != "" {
 			base[o.name] = "refused"
 		}
+		r.Note("baseline:"+o.name, base[o.name])
 	}
 
 	reps, shuffles, batches := 50, 200, 10
@@ -600,7 +630,9 @@ func run(r *mon.Run) {
 			}},
 			{"bundle Version.HeaderMagicBytes", func(k int) []byte { return []bver.Version{bver.VersionB1, bver.VersionB2}[k%2].HeaderMagicBytes() }},
 			{"sxg Version.HeaderMagicBytes", func(k int) []byte { return gen.SXGVersions[k%3].HeaderMagicBytes() }},
-			{"AugmentedCertificate.CertSha256", func(k int) []byte { return []*certurl.AugmentedCertificate{idA.Chain[0], idB.Chain[0]}[k%2].CertSha256() }},
+			{"AugmentedCertificate.CertSha256", func(k int) []byte {
+				return []*certurl.AugmentedCertificate{idA.Chain[0], idB.Chain[0]}[k%2].CertSha256()
+			}},
 			{"MapEntryEncoder.KeyBytes", func(k int) []byte {
 				return cbor.GenerateMapEntry(func(ke, ve *cbor.Encoder) { ke.EncodeTextString(fmt.Sprintf("key-%d", k)); ve.EncodeUint(uint64(k)) }).KeyBytes()
 			}},
